@@ -999,7 +999,7 @@ pub open spec fn clause_agg(all: bool, r: EvalRes) -> Status {
 }
 } // mod model
 pub use model::*;
-broadcast use model::group_stack, scope_model::axiom_value_scope_resolved;
+broadcast use model::group_stack;
 // ---- trait EvalContext
 pub trait EvalContext<'value, 'loc: 'value> {
     spec fn stack(&self) -> Seq<Seq<Node<'value>>>;
@@ -1055,49 +1055,7 @@ pub trait EvalContext<'value, 'loc: 'value> {
             final(self).stack() == old(self).stack(),;
 
 }
-// ---- raw prelude_scope.rs
-// R12: ASSUMED model of eval_context::ValueScope for Verus (which cannot unsize `&mut ValueScope` to `&mut dyn EvalContext`).
-// `ValueScope { root: X, parent: P }` is routed through verif_value_scope(X, P) and `&mut val_resolver` through
-// verif_as_ctx(&mut val_resolver). What is assumed is what the real impl does: every RecordTracer / rule_status /
-// resolve_variable call is forwarded to the parent, so the parent's record tree is the scope's record tree, and the
-// parent's semantic state is not changed through the scope. `cur_stack` is the record tree seen through the scope now,
-// `fin_stack` the (prophesied) tree the parent has when the scope dies; they coincide once the scope is resolved.
-pub mod scope_model {
-use vstd::prelude::*;
-use super::*;
-#[verifier::external_body]
-pub struct ValueScope<'value, 'eval, 'loc: 'value> {
-    root: Rc<PathAwareValue>,
-    parent: &'eval mut dyn EvalContext<'value, 'loc>,
-}
-
-impl<'value, 'eval, 'loc: 'value> ValueScope<'value, 'eval, 'loc> {
-    pub uninterp spec fn cur_stack(&self) -> Seq<Seq<Node<'value>>>;
-    pub uninterp spec fn fin_stack(&self) -> Seq<Seq<Node<'value>>>;
-}
-
-pub broadcast axiom fn axiom_value_scope_resolved<'value, 'eval, 'loc: 'value>(s: ValueScope<'value, 'eval, 'loc>)
-    ensures #[trigger] has_resolved(s) ==> s.cur_stack() == s.fin_stack();
-
-#[verifier::external_body]
-pub fn verif_value_scope<'value, 'eval, 'loc: 'value>(root: Rc<PathAwareValue>, parent: &'eval mut dyn EvalContext<'value, 'loc>) -> (s: ValueScope<'value, 'eval, 'loc>)
-    ensures
-        s.cur_stack() == old(parent).stack(),
-        s.fin_stack() == final(parent).stack(),
-        ((forall|n: Seq<char>| (final(parent)).rule_sem(n) == (old(parent)).rule_sem(n)) && (forall|q: Seq<QueryPart<'loc>>| (final(parent)).query_sem(q) == (old(parent)).query_sem(q))),
-{ unimplemented!() }
-
-#[verifier::external_body]
-pub fn verif_as_ctx<'a, 'value, 'eval, 'loc: 'value>(s: &'a mut ValueScope<'value, 'eval, 'loc>) -> (r: &'a mut dyn EvalContext<'value, 'loc>)
-    ensures
-        r.stack() == old(s).cur_stack(),
-        final(r).stack() == final(s).cur_stack(),
-        final(s).fin_stack() == old(s).fin_stack(),
-{ unimplemented!() }
-} // mod scope_model
-pub use scope_model::*;
-// ---- stub guard/src/rules/eval.rs::eval_conjunction_clauses
-#[verifier::external_body]
+// ---- fn guard/src/rules/eval.rs::eval_conjunction_clauses
 pub fn eval_conjunction_clauses<'value, 'loc: 'value, T, E>(
     conjunctions: &'value Conjunctions<T>,
     resolver: &mut dyn EvalContext<'value, 'loc>,
@@ -1105,12 +1063,232 @@ pub fn eval_conjunction_clauses<'value, 'loc: 'value, T, E>(
 ) -> (res: Result<Status>)
 where
     E: Fn(&'value T, &mut dyn EvalContext<'value, 'loc>) -> Result<Status>,
+    requires
+        old(resolver).stack().len() >= 1,
+        conjunctions@.len() < 0x7fff_ffff,
+        forall|i: int| 0 <= i < conjunctions@.len() ==> (#[trigger] conjunctions@[i])@.len() < 0x7fff_ffff,
+        forall|t: &'value T, c: &mut dyn EvalContext<'value, 'loc>| c.stack().len() >= 1 ==> call_requires(eval_fn, (t, c)),
+        forall|t: &'value T, c: &mut dyn EvalContext<'value, 'loc>, r: Result<Status>| #[trigger] call_ensures(eval_fn, (t, c), r) ==>
+            ((forall|n: Seq<char>| (final(c)).rule_sem(n) == (c).rule_sem(n)) && (forall|q: Seq<QueryPart<'loc>>| (final(c)).query_sem(q) == (c).query_sem(q))) && clause_post(c.stack(), final(c).stack(), r),
     ensures
         ((forall|n: Seq<char>| (final(resolver)).rule_sem(n) == (old(resolver)).rule_sem(n)) && (forall|q: Seq<QueryPart<'loc>>| (final(resolver)).query_sem(q) == (old(resolver)).query_sem(q))),
         lines_post(old(resolver).stack(), final(resolver).stack(), res),
         res is Ok ==> forall|i: int| 0 <= i < st_new(old(resolver).stack(), final(resolver).stack()).len() ==> !is_condition(#[trigger] st_new(old(resolver).stack(), final(resolver).stack())[i].rec),
-{ unimplemented!() }
-// ---- canary canary:callee:eval_conjunction_clauses
+{
+    let ghost s0 = resolver.stack();
+
+    let verif_loop_value;
+ loop         invariant_except_break
+            resolver.stack() == s0,
+        invariant
+            s0.len() >= 1,
+            ((forall|n: Seq<char>| (resolver).rule_sem(n) == (old(resolver)).rule_sem(n)) && (forall|q: Seq<QueryPart<'loc>>| (resolver).query_sem(q) == (old(resolver)).query_sem(q))),
+            conjunctions@.len() < 0x7fff_ffff,
+            forall|i: int| 0 <= i < conjunctions@.len() ==> (#[trigger] conjunctions@[i])@.len() < 0x7fff_ffff,
+            forall|t: &'value T, c: &mut dyn EvalContext<'value, 'loc>| c.stack().len() >= 1 ==> call_requires(eval_fn, (t, c)),
+            forall|t: &'value T, c: &mut dyn EvalContext<'value, 'loc>, r: Result<Status>| #[trigger] call_ensures(eval_fn, (t, c), r) ==>
+                ((forall|n: Seq<char>| (final(c)).rule_sem(n) == (c).rule_sem(n)) && (forall|q: Seq<QueryPart<'loc>>| (final(c)).query_sem(q) == (c).query_sem(q))) && clause_post(c.stack(), final(c).stack(), r),
+        ensures
+            ((forall|n: Seq<char>| (resolver).rule_sem(n) == (old(resolver)).rule_sem(n)) && (forall|q: Seq<QueryPart<'loc>>| (resolver).query_sem(q) == (old(resolver)).query_sem(q))),
+            lines_post(s0, resolver.stack(), Ok::<Status, Error>(verif_loop_value)),
+            forall|i: int| 0 <= i < st_new(s0, resolver.stack()).len() ==> !is_condition(#[trigger] st_new(s0, resolver.stack())[i].rec),
+        decreases 0int, {
+        let mut num_passes = 0;
+        let mut num_fails = 0;
+        let context = verif_fmt();
+        let verif_s0 = conjunctions;
+let mut verif_i0: usize = 0;
+'conjunction: while verif_i0 < verif_s0.len()
+            invariant
+                s0.len() >= 1,
+                conjunctions@.len() < 0x7fff_ffff,
+                forall|i: int| 0 <= i < conjunctions@.len() ==> (#[trigger] conjunctions@[i])@.len() < 0x7fff_ffff,
+                forall|t: &'value T, c: &mut dyn EvalContext<'value, 'loc>| c.stack().len() >= 1 ==> call_requires(eval_fn, (t, c)),
+                forall|t: &'value T, c: &mut dyn EvalContext<'value, 'loc>, r: Result<Status>| #[trigger] call_ensures(eval_fn, (t, c), r) ==>
+                    ((forall|n: Seq<char>| (final(c)).rule_sem(n) == (c).rule_sem(n)) && (forall|q: Seq<QueryPart<'loc>>| (final(c)).query_sem(q) == (c).query_sem(q))) && clause_post(c.stack(), final(c).stack(), r),
+                verif_s0 == conjunctions,
+                verif_i0 <= verif_s0@.len(),
+                ((forall|n: Seq<char>| (resolver).rule_sem(n) == (old(resolver)).rule_sem(n)) && (forall|q: Seq<QueryPart<'loc>>| (resolver).query_sem(q) == (old(resolver)).query_sem(q))),
+                st_extends(s0, resolver.stack()),
+                0 <= num_passes <= verif_i0,
+                0 <= num_fails <= verif_i0,
+                num_passes as nat == count(kid_statuses(st_new(s0, resolver.stack())), Status::PASS),
+                num_fails as nat == count(kid_statuses(st_new(s0, resolver.stack())), Status::FAIL),
+                forall|i: int| 0 <= i < st_new(s0, resolver.stack()).len() ==> !is_condition(#[trigger] st_new(s0, resolver.stack())[i].rec),
+            decreases verif_s0@.len() - verif_i0,
+{
+let conjunction = &verif_s0[verif_i0];
+verif_i0 = verif_i0 + 1;
+
+                        let ghost s_line = resolver.stack();
+let mut num_of_disjunction_fails = 0;
+            let multiple_ors_present = conjunction.len() > 1;
+            if multiple_ors_present {
+                resolver.start_record(&context)?;
+            }
+                        let ghost base = resolver.stack();
+let verif_s1 = conjunction;
+let mut verif_i1: usize = 0;
+#[verifier::loop_isolation(false)]
+while verif_i1 < verif_s1.len()
+                invariant
+                    verif_s0 == conjunctions,
+                    verif_i0 <= verif_s0@.len(),
+                    1 <= verif_i0,
+                    verif_s1 == conjunction,
+                    *conjunction == verif_s0@[verif_i0 - 1],
+                    verif_i1 <= verif_s1@.len(),
+                    multiple_ors_present == (verif_s1@.len() > 1),
+                    ((forall|n: Seq<char>| (resolver).rule_sem(n) == (old(resolver)).rule_sem(n)) && (forall|q: Seq<QueryPart<'loc>>| (resolver).query_sem(q) == (old(resolver)).query_sem(q))),
+                    st_extends(s0, s_line),
+                    base == (if multiple_ors_present { s_line.push(Seq::empty()) } else { s_line }),
+                    st_extends(base, resolver.stack()),
+                    st_new(base, resolver.stack()).len() == verif_i1,
+                    forall|k: int| 0 <= k < st_new(base, resolver.stack()).len() ==> rec_status(#[trigger] st_new(base, resolver.stack())[k].rec) != Status::PASS,
+                    forall|k: int| 0 <= k < st_new(base, resolver.stack()).len() ==> !is_condition(#[trigger] st_new(base, resolver.stack())[k].rec),
+                    0 <= num_of_disjunction_fails <= verif_i1,
+                    num_of_disjunction_fails as nat == count(kid_statuses(st_new(base, resolver.stack())), Status::FAIL),
+                    0 <= num_passes < verif_i0,
+                    0 <= num_fails < verif_i0,
+                    num_passes as nat == count(kid_statuses(st_new(s0, s_line)), Status::PASS),
+                    num_fails as nat == count(kid_statuses(st_new(s0, s_line)), Status::FAIL),
+                    forall|i: int| 0 <= i < st_new(s0, s_line).len() ==> !is_condition(#[trigger] st_new(s0, s_line)[i].rec),
+                decreases verif_s1@.len() - verif_i1,
+{
+let disjunction = &verif_s1[verif_i1];
+verif_i1 = verif_i1 + 1;
+
+                                let ghost pre = resolver.stack();
+match eval_fn(disjunction, resolver) {
+                    Ok(status) => match status {
+                        Status::PASS => {
+                            num_passes += 1;
+                            proof {
+                                assert(st_one_more(pre, resolver.stack()));
+                                lemma_new_push(base, pre, resolver.stack());
+                                if !multiple_ors_present {
+                                    lemma_extends_same(s_line, pre);
+                                    lemma_line_closed(s0, s_line, resolver.stack());
+                                }
+                            }
+                            let ghost cur = resolver.stack();
+
+                            if multiple_ors_present {
+                                resolver.end_record(
+                                    &context,
+                                    RecordType::Disjunction(BlockCheck {
+                                        message: None,
+                                        at_least_one_matches: true,
+                                        status: Status::PASS,
+                                    }),
+                                )?;
+                                proof {
+                                    lemma_new_from_open(s_line, cur);
+                                    lemma_some_last_pass(kid_statuses(cur.last()));
+                                    lemma_line_closed(s0, s_line, resolver.stack());
+                                    // C02, or-line: the Disjunction record closed here is the some-aggregate of the alternatives under it
+                                    assert(line_node_ok(st_last(resolver.stack())) && st_last(resolver.stack()).kids == cur.last());
+                                }
+
+                            }
+                            continue 'conjunction;
+                        }
+                                                Status::SKIP => {
+                            proof {
+                                lemma_new_push(base, pre, resolver.stack());
+                                lemma_count_push(kid_statuses(st_new(base, pre)), Status::SKIP, Status::FAIL);
+                            }
+                        }
+                        Status::FAIL => {
+                            num_of_disjunction_fails += 1;
+                            proof {
+                                lemma_new_push(base, pre, resolver.stack());
+                                lemma_count_push(kid_statuses(st_new(base, pre)), Status::FAIL, Status::FAIL);
+                            }
+
+                            if multiple_ors_present { break; }
+                        }
+                    },
+
+                    Err(e) => {
+                        if multiple_ors_present {
+                            resolver.end_record(
+                                &context,
+                                RecordType::Disjunction(BlockCheck {
+                                    message: Some(verif_fmt()),
+                                    status: Status::FAIL,
+                                    at_least_one_matches: true,
+                                }),
+                            )?;
+                        }
+                        return Err(e);
+                    }
+                }
+            }
+            let ghost cur2 = resolver.stack();
+            proof {
+                if !multiple_ors_present {
+                    if verif_s1@.len() == 0 {
+                        lemma_extends_same(s_line, cur2);
+                    } else {
+                        lemma_extends_one(s_line, cur2);
+                        lemma_line_closed(s0, s_line, cur2);
+                        lemma_one_more_extends(s_line, cur2);
+                        assert(kid_statuses(st_new(s_line, cur2)) =~= seq![rec_status(st_last(cur2).rec)]);
+                        lemma_count_push(Seq::<Status>::empty(), rec_status(st_last(cur2).rec), Status::FAIL);
+                        assert(Seq::<Status>::empty().push(rec_status(st_last(cur2).rec)) =~= seq![rec_status(st_last(cur2).rec)]);
+                    }
+                }
+            }
+
+
+            if num_of_disjunction_fails > 0 {
+                num_fails += 1;
+            }
+
+            if multiple_ors_present {
+                if num_of_disjunction_fails > 0 {
+                    resolver.end_record(
+                        &context,
+                        RecordType::Disjunction(BlockCheck {
+                            message: None,
+                            status: Status::FAIL,
+                            at_least_one_matches: true,
+                        }),
+                    )?;
+                } else {
+                    resolver.end_record(
+                        &context,
+                        RecordType::Disjunction(BlockCheck {
+                            message: None,
+                            status: Status::SKIP,
+                            at_least_one_matches: true,
+                        }),
+                    )?;
+                }
+                proof {
+                    lemma_new_from_open(s_line, cur2);
+                    lemma_some_no_pass(kid_statuses(cur2.last()));
+                    lemma_line_closed(s0, s_line, resolver.stack());
+                    // C02, or-line: FAIL iff an alternative failed, SKIP otherwise (none passed)
+                    assert(line_node_ok(st_last(resolver.stack())) && st_last(resolver.stack()).kids == cur2.last());
+                    // ... and no alternative was left out: the line is given up only after every alternative was evaluated
+                    assert(cur2.last().len() == verif_s1@.len());
+                }
+
+            }
+        }
+        if num_fails > 0 {
+            { verif_loop_value = Status::FAIL; break; }
+        }
+        if num_passes > 0 {
+            { verif_loop_value = Status::PASS; break; }
+        }
+        { verif_loop_value = Status::SKIP; break; }
+    }
+ Ok(verif_loop_value)
+}
+// ---- canary canary:pre:eval_conjunction_clauses
 pub fn eval_conjunction_clauses__canary<'value, 'loc: 'value, T, E>(
     conjunctions: &'value Conjunctions<T>,
     resolver: &mut dyn EvalContext<'value, 'loc>,
@@ -1118,478 +1296,33 @@ pub fn eval_conjunction_clauses__canary<'value, 'loc: 'value, T, E>(
 ) -> (res: Result<Status>)
 where
     E: Fn(&'value T, &mut dyn EvalContext<'value, 'loc>) -> Result<Status>,
-{ let r = eval_conjunction_clauses(conjunctions, resolver, eval_fn); assert(false); r }
-// ---- stub guard/src/rules/eval.rs::eval_general_block_clause
-#[verifier::external_body]
-pub fn eval_general_block_clause<'value, 'loc: 'value, T, E>(
-    block: &'value Block<'loc, T>,
+    requires
+        old(resolver).stack().len() >= 1,
+        conjunctions@.len() < 0x7fff_ffff,
+        forall|i: int| 0 <= i < conjunctions@.len() ==> (#[trigger] conjunctions@[i])@.len() < 0x7fff_ffff,
+        forall|t: &'value T, c: &mut dyn EvalContext<'value, 'loc>| c.stack().len() >= 1 ==> call_requires(eval_fn, (t, c)),
+        forall|t: &'value T, c: &mut dyn EvalContext<'value, 'loc>, r: Result<Status>| #[trigger] call_ensures(eval_fn, (t, c), r) ==>
+            ((forall|n: Seq<char>| (final(c)).rule_sem(n) == (c).rule_sem(n)) && (forall|q: Seq<QueryPart<'loc>>| (final(c)).query_sem(q) == (c).query_sem(q))) && clause_post(c.stack(), final(c).stack(), r),
+{ assert(false); vstd::pervasive::unreached() }
+// ---- fn guard/src/rules/eval.rs::eval_conjunction_clauses (assumed elsewhere as eval_conjunction_clauses.spec)
+pub fn eval_conjunction_clauses__as_assumed_0<'value, 'loc: 'value, T, E>(
+    conjunctions: &'value Conjunctions<T>,
     resolver: &mut dyn EvalContext<'value, 'loc>,
     eval_fn: E,
 ) -> (res: Result<Status>)
 where
     E: Fn(&'value T, &mut dyn EvalContext<'value, 'loc>) -> Result<Status>,
+    requires
+        old(resolver).stack().len() >= 1,
+        conjunctions@.len() < 0x7fff_ffff,
+        forall|i: int| 0 <= i < conjunctions@.len() ==> (#[trigger] conjunctions@[i])@.len() < 0x7fff_ffff,
+        forall|t: &'value T, c: &mut dyn EvalContext<'value, 'loc>| c.stack().len() >= 1 ==> call_requires(eval_fn, (t, c)),
+        forall|t: &'value T, c: &mut dyn EvalContext<'value, 'loc>, r: Result<Status>| #[trigger] call_ensures(eval_fn, (t, c), r) ==>
+            ((forall|n: Seq<char>| (final(c)).rule_sem(n) == (c).rule_sem(n)) && (forall|q: Seq<QueryPart<'loc>>| (final(c)).query_sem(q) == (c).query_sem(q))) && clause_post(c.stack(), final(c).stack(), r),
     ensures
         ((forall|n: Seq<char>| (final(resolver)).rule_sem(n) == (old(resolver)).rule_sem(n)) && (forall|q: Seq<QueryPart<'loc>>| (final(resolver)).query_sem(q) == (old(resolver)).query_sem(q))),
         lines_post(old(resolver).stack(), final(resolver).stack(), res),
         res is Ok ==> forall|i: int| 0 <= i < st_new(old(resolver).stack(), final(resolver).stack()).len() ==> !is_condition(#[trigger] st_new(old(resolver).stack(), final(resolver).stack())[i].rec),
-{ unimplemented!() }
-// ---- canary canary:callee:eval_general_block_clause
-pub fn eval_general_block_clause__canary<'value, 'loc: 'value, T, E>(
-    block: &'value Block<'loc, T>,
-    resolver: &mut dyn EvalContext<'value, 'loc>,
-    eval_fn: E,
-) -> (res: Result<Status>)
-where
-    E: Fn(&'value T, &mut dyn EvalContext<'value, 'loc>) -> Result<Status>,
-{ let r = eval_general_block_clause(block, resolver, eval_fn); assert(false); r }
-// ---- stub guard/src/rules/eval.rs::eval_when_clause
-#[verifier::external_body]
-pub fn eval_when_clause<'value, 'loc: 'value>(
-    when_clause: &'value WhenGuardClause<'loc>,
-    resolver: &mut dyn EvalContext<'value, 'loc>,
-) -> (res: Result<Status>)
-    ensures
-        ((forall|n: Seq<char>| (final(resolver)).rule_sem(n) == (old(resolver)).rule_sem(n)) && (forall|q: Seq<QueryPart<'loc>>| (final(resolver)).query_sem(q) == (old(resolver)).query_sem(q))),
-        clause_post(old(resolver).stack(), final(resolver).stack(), res),
-{ unimplemented!() }
-// ---- canary canary:callee:eval_when_clause
-pub fn eval_when_clause__canary<'value, 'loc: 'value>(
-    when_clause: &'value WhenGuardClause<'loc>,
-    resolver: &mut dyn EvalContext<'value, 'loc>,
-) -> (res: Result<Status>)
-{ let r = eval_when_clause(when_clause, resolver); assert(false); r }
-// ---- stub guard/src/rules/eval.rs::eval_rule_clause
-#[verifier::external_body]
-pub fn eval_rule_clause<'value, 'loc: 'value>(
-    rule_clause: &'value RuleClause<'loc>,
-    resolver: &mut dyn EvalContext<'value, 'loc>,
-) -> (res: Result<Status>)
-    ensures
-        ((forall|n: Seq<char>| (final(resolver)).rule_sem(n) == (old(resolver)).rule_sem(n)) && (forall|q: Seq<QueryPart<'loc>>| (final(resolver)).query_sem(q) == (old(resolver)).query_sem(q))),
-        clause_post(old(resolver).stack(), final(resolver).stack(), res),
-{ unimplemented!() }
-// ---- canary canary:callee:eval_rule_clause
-pub fn eval_rule_clause__canary<'value, 'loc: 'value>(
-    rule_clause: &'value RuleClause<'loc>,
-    resolver: &mut dyn EvalContext<'value, 'loc>,
-) -> (res: Result<Status>)
-{ let r = eval_rule_clause(rule_clause, resolver); assert(false); r }
-// ---- stub guard/src/rules/eval.rs::eval_guard_clause
-#[verifier::external_body]
-pub fn eval_guard_clause<'value, 'loc: 'value>(
-    gc: &'value GuardClause<'loc>,
-    resolver: &mut dyn EvalContext<'value, 'loc>,
-) -> (res: Result<Status>)
-    ensures
-        ((forall|n: Seq<char>| (final(resolver)).rule_sem(n) == (old(resolver)).rule_sem(n)) && (forall|q: Seq<QueryPart<'loc>>| (final(resolver)).query_sem(q) == (old(resolver)).query_sem(q))),
-        clause_post(old(resolver).stack(), final(resolver).stack(), res),
-{ unimplemented!() }
-// ---- canary canary:callee:eval_guard_clause
-pub fn eval_guard_clause__canary<'value, 'loc: 'value>(
-    gc: &'value GuardClause<'loc>,
-    resolver: &mut dyn EvalContext<'value, 'loc>,
-) -> (res: Result<Status>)
-{ let r = eval_guard_clause(gc, resolver); assert(false); r }
-// ---- fn guard/src/rules/eval.rs::eval_guard_block_clause
-pub fn eval_guard_block_clause<'value, 'loc: 'value>(
-    block_clause: &'value BlockGuardClause<'loc>,
-    resolver: &mut dyn EvalContext<'value, 'loc>,
-) -> (res: Result<Status>)
-    ensures
-        ((forall|n: Seq<char>| (final(resolver)).rule_sem(n) == (old(resolver)).rule_sem(n)) && (forall|q: Seq<QueryPart<'loc>>| (final(resolver)).query_sem(q) == (old(resolver)).query_sem(q))),
-        clause_post(old(resolver).stack(), final(resolver).stack(), res),
-        res is Ok ==> (st_last(final(resolver).stack()).rec matches RecordType::BlockGuardCheck(b) && b.status == res->Ok_0),
-        res is Ok ==> old(resolver).query_sem(block_clause.query.query@) is Some,
-        res is Ok && old(resolver).query_sem(block_clause.query.query@)->Some_0.len() == 0 ==>
-            res->Ok_0 == if block_clause.not_empty { Status::FAIL } else { Status::SKIP },
-{
-    let context = verif_fmt();
-    let match_all = block_clause.query.match_all;
-    resolver.start_record(&context)?;
-    let block_values = match resolver.query(&block_clause.query.query) {
-        Ok(values) => values,
-        Err(e) => {
-            resolver.end_record(
-                &context,
-                RecordType::BlockGuardCheck(BlockCheck {
-                    status: Status::FAIL,
-                    at_least_one_matches: !match_all,
-                    message: None,
-                }),
-            )?;
-            return Err(e);
-        }
-    };
-    if block_values.is_empty() {
-        let status = if block_clause.not_empty {
-            Status::FAIL
-        } else {
-            Status::SKIP
-        };
-        resolver.end_record(
-            &context,
-            RecordType::BlockGuardCheck(BlockCheck {
-                status,
-                at_least_one_matches: !match_all,
-                message: None,
-            }),
-        )?;
-        return Ok(status);
-    }
-    let mut fails = 0;
-    let mut passes = 0;
-    let ghost mut vs: Seq<Status> = Seq::empty();
-    let ghost s1 = resolver.stack();
-    let ghost bv = block_values@;
-
-    for each in it: block_values
-        invariant
-            it.seq() == bv,
-            bv.len() < 0x7fff_ffff,
-            it.index@ <= bv.len(),
-            ((forall|n: Seq<char>| (resolver).rule_sem(n) == (old(resolver)).rule_sem(n)) && (forall|q: Seq<QueryPart<'loc>>| (resolver).query_sem(q) == (old(resolver)).query_sem(q))),
-            st_extends(old(resolver).stack().push(Seq::empty()), s1),
-            st_extends(s1, resolver.stack()),
-            vs.len() == it.index@,
-            0 <= fails <= it.index@,
-            0 <= passes <= it.index@,
-            fails as nat == count(vs, Status::FAIL),
-            passes as nat == count(vs, Status::PASS),
-{
-        match each {
-            QueryResult::UnResolved(ur) => {
-                fails += 1;
-                let guard_cxt = verif_fmt();
-                proof {
-                    lemma_count_push(vs, Status::FAIL, Status::FAIL);
-                    lemma_count_push(vs, Status::FAIL, Status::PASS);
-                    vs = vs.push(Status::FAIL);
-                }
-
-                resolver.start_record(&guard_cxt)?;
-                resolver.end_record(
-                    &guard_cxt,
-                    RecordType::ClauseValueCheck(ClauseCheck::MissingBlockValue(ValueCheck {
-                        message: Some(verif_fmt()),
-                        status: Status::FAIL,
-                        custom_message: None,
-                        from: QueryResult::UnResolved(ur),
-                    })),
-                )?;
-            }
-
-            QueryResult::Literal(rv) | QueryResult::Resolved(rv) => {
-                let mut val_resolver = verif_value_scope(rv, resolver);
-                match eval_general_block_clause(
-                    &block_clause.block,
-                    verif_as_ctx(&mut val_resolver),
-                    eval_guard_clause,
-                ) {
-                    Ok(status) => match status {
-                        Status::PASS => {
-                            passes += 1;
-                            proof {
-                                lemma_count_push(vs, Status::PASS, Status::FAIL);
-                                lemma_count_push(vs, Status::PASS, Status::PASS);
-                                vs = vs.push(Status::PASS);
-                            }
-
-                        }
-                        Status::FAIL => {
-                            fails += 1;
-                            proof {
-                                lemma_count_push(vs, Status::FAIL, Status::FAIL);
-                                lemma_count_push(vs, Status::FAIL, Status::PASS);
-                                vs = vs.push(Status::FAIL);
-                            }
-
-                        }
-                        Status::SKIP => {
-                            proof {
-                                lemma_count_push(vs, Status::SKIP, Status::FAIL);
-                                lemma_count_push(vs, Status::SKIP, Status::PASS);
-                                vs = vs.push(Status::SKIP);
-                            }
-                        }
-                    },
-
-                    Err(e) => {
-                        resolver.end_record(
-                            &context,
-                            RecordType::BlockGuardCheck(BlockCheck {
-                                status: Status::FAIL,
-                                at_least_one_matches: !match_all,
-                                message: Some(verif_fmt()),
-                            }),
-                        )?;
-                        return Err(e);
-                    }
-                }
-            }
-        }
-    }
-
-    let status = if match_all {
-        if fails > 0 {
-            Status::FAIL
-        } else if passes > 0 {
-            Status::PASS
-        } else {
-            Status::SKIP
-        }
-    } else if passes > 0 {
-        Status::PASS
-    } else if fails > 0 {
-        Status::FAIL
-    } else {
-        Status::SKIP
-    };
-        proof {
-        lemma_count_has(vs, Status::FAIL);
-        lemma_count_has(vs, Status::PASS);
-        // the per-value aggregation of the statement, as a checked obligation
-        assert(status == spec_block(match_all, vs));
-    }
-resolver.end_record(
-        &context,
-        RecordType::BlockGuardCheck(BlockCheck {
-            status,
-            at_least_one_matches: !match_all,
-            message: None,
-        }),
-    )?;
-    Ok(status)
-}
-// ---- canary canary:pre:eval_guard_block_clause
-pub fn eval_guard_block_clause__canary<'value, 'loc: 'value>(
-    block_clause: &'value BlockGuardClause<'loc>,
-    resolver: &mut dyn EvalContext<'value, 'loc>,
-) -> (res: Result<Status>)
-{ assert(false); vstd::pervasive::unreached() }
-// ---- fn guard/src/rules/eval.rs::eval_guard_block_clause (assumed elsewhere as clause_stub.spec)
-pub fn eval_guard_block_clause__as_assumed_0<'value, 'loc: 'value>(
-    block_clause: &'value BlockGuardClause<'loc>,
-    resolver: &mut dyn EvalContext<'value, 'loc>,
-) -> (res: Result<Status>)
-    ensures
-        ((forall|n: Seq<char>| (final(resolver)).rule_sem(n) == (old(resolver)).rule_sem(n)) && (forall|q: Seq<QueryPart<'loc>>| (final(resolver)).query_sem(q) == (old(resolver)).query_sem(q))),
-        clause_post(old(resolver).stack(), final(resolver).stack(), res),
-{ let r = eval_guard_block_clause(block_clause, resolver); r }
-// ---- fn guard/src/rules/eval.rs::eval_type_block_clause
-pub fn eval_type_block_clause<'value, 'loc: 'value>(
-    type_block: &'value TypeBlock<'loc>,
-    resolver: &mut dyn EvalContext<'value, 'loc>,
-) -> (res: Result<Status>)
-    ensures
-        ((forall|n: Seq<char>| (final(resolver)).rule_sem(n) == (old(resolver)).rule_sem(n)) && (forall|q: Seq<QueryPart<'loc>>| (final(resolver)).query_sem(q) == (old(resolver)).query_sem(q))),
-        clause_post(old(resolver).stack(), final(resolver).stack(), res),
-        res is Ok ==> (st_last(final(resolver).stack()).rec matches RecordType::TypeCheck(t) && t.block.status == res->Ok_0),
-        res is Ok && type_block.conditions is Some ==> st_last(final(resolver).stack()).kids.len() >= 1,
-        res is Ok && type_block.conditions is Some ==> st_last(final(resolver).stack()).kids[0].rec is TypeCondition,
-        res is Ok && type_block.conditions is Some ==>
-            rec_status(st_last(final(resolver).stack()).kids[0].rec) == spec_all(kid_statuses(st_last(final(resolver).stack()).kids[0].kids)),
-        res is Ok && type_block.conditions is Some && rec_status(st_last(final(resolver).stack()).kids[0].rec) != Status::PASS ==>
-            res->Ok_0 == Status::SKIP && st_last(final(resolver).stack()).kids.len() == 1,
-{
-    let context = verif_fmt();
-    resolver.start_record(&context)?;
-    let block = if let Some(conditions) = &type_block.conditions {
-        let when_context = verif_fmt();
-        resolver.start_record(&when_context)?;
-        match eval_conjunction_clauses(conditions, resolver, eval_when_clause) {
-            Ok(status) => {
-                if status != Status::PASS {
-                    resolver.end_record(&when_context, RecordType::TypeCondition(status))?;
-                    resolver.end_record(
-                        &context,
-                        RecordType::TypeCheck(TypeBlockCheck {
-                            type_name: &type_block.type_name,
-                            block: BlockCheck {
-                                status: Status::SKIP,
-                                at_least_one_matches: false,
-                                message: None,
-                            },
-                        }),
-                    )?;
-                    return Ok(Status::SKIP);
-                }
-                resolver.end_record(&when_context, RecordType::TypeCondition(Status::PASS))?;
-                &type_block.block
-            }
-
-            Err(e) => {
-                resolver.end_record(&when_context, RecordType::TypeCondition(Status::FAIL))?;
-                resolver.end_record(
-                    &context,
-                    RecordType::TypeCheck(TypeBlockCheck {
-                        type_name: &type_block.type_name,
-                        block: BlockCheck {
-                            status: Status::FAIL,
-                            message: Some(verif_fmt()),
-                            at_least_one_matches: false,
-                        },
-                    }),
-                )?;
-                return Err(e);
-            }
-        }
-    } else {
-        &type_block.block
-    };
-
-    let values = match resolver.query(&type_block.query) {
-        Ok(values) => values,
-        Err(e) => {
-            resolver.end_record(
-                &context,
-                RecordType::TypeCheck(TypeBlockCheck {
-                    type_name: &type_block.type_name,
-                    block: BlockCheck {
-                        status: Status::FAIL,
-                        at_least_one_matches: false,
-                        message: None,
-                    },
-                }),
-            )?;
-            return Err(e);
-        }
-    };
-    if values.is_empty() {
-        resolver.end_record(
-            &context,
-            RecordType::TypeCheck(TypeBlockCheck {
-                type_name: &type_block.type_name,
-                block: BlockCheck {
-                    status: Status::SKIP,
-                    at_least_one_matches: false,
-                    message: None,
-                },
-            }),
-        )?;
-        return Ok(Status::SKIP);
-    }
-
-    let mut fails = 0;
-    let mut passes = 0;
-    let ghost mut vs: Seq<Status> = Seq::empty();
-    let ghost s2 = resolver.stack();
-    let ghost vals = values@;
-
-    for each in it: values.iter()
-        invariant
-            vals == values@,
-            vals.len() < 0x7fff_ffff,
-            ((forall|n: Seq<char>| (resolver).rule_sem(n) == (old(resolver)).rule_sem(n)) && (forall|q: Seq<QueryPart<'loc>>| (resolver).query_sem(q) == (old(resolver)).query_sem(q))),
-            st_extends(old(resolver).stack().push(Seq::empty()), s2),
-            st_extends(s2, resolver.stack()),
-            vs.len() == it.index@,
-            0 <= fails <= it.index@,
-            0 <= passes <= it.index@,
-            fails as nat == count(vs, Status::FAIL),
-            passes as nat == count(vs, Status::PASS),
-{
-        match each {
-            QueryResult::Literal(rv) | QueryResult::Resolved(rv) => {
-                let block_context = verif_fmt();
-                resolver.start_record(&block_context)?;
-
-                let mut val_resolver = verif_value_scope(Rc::clone(rv), resolver);
-
-                match eval_general_block_clause(block, verif_as_ctx(&mut val_resolver), eval_guard_clause) {
-                    Ok(status) => {
-                        match status {
-                            Status::PASS => {
-                                passes += 1;
-                            }
-                            Status::FAIL => {
-                                fails += 1;
-                            }
-                            Status::SKIP => {}
-                        }
-                                                proof {
-                            lemma_count_push(vs, status, Status::FAIL);
-                            lemma_count_push(vs, status, Status::PASS);
-                            vs = vs.push(status);
-                        }
-resolver.end_record(&block_context, RecordType::TypeBlock(status))?;
-                    }
-
-                    Err(e) => {
-                        resolver.end_record(&block_context, RecordType::TypeBlock(Status::FAIL))?;
-                        resolver.end_record(
-                            &context,
-                            RecordType::TypeCheck(TypeBlockCheck {
-                                type_name: &type_block.type_name,
-                                block: BlockCheck {
-                                    status: Status::FAIL,
-                                    message: Some(verif_fmt()),
-                                    at_least_one_matches: false,
-                                },
-                            }),
-                        )?;
-                        return Err(e);
-                    }
-                }
-            }
-            QueryResult::UnResolved(ur) => {
-                resolver.end_record(
-                    &context,
-                    RecordType::TypeCheck(TypeBlockCheck {
-                        type_name: &type_block.type_name,
-                        block: BlockCheck {
-                            at_least_one_matches: false,
-                            status: Status::FAIL,
-                            message: ur.reason.clone(),
-                        },
-                    }),
-                )?;
-
-                return Err(Error::MissingValue(verif_fmt()));
-            }
-        }
-    }
-
-    let status = if fails > 0 {
-        Status::FAIL
-    } else if passes > 0 {
-        Status::PASS
-    } else {
-        Status::SKIP
-    };
-
-        proof {
-        lemma_count_has(vs, Status::FAIL);
-        lemma_count_has(vs, Status::PASS);
-        // per-resource aggregation, as a checked obligation
-        assert(status == spec_all(vs));
-    }
-resolver.end_record(
-        &context,
-        RecordType::TypeCheck(TypeBlockCheck {
-            type_name: &type_block.type_name,
-            block: BlockCheck {
-                status,
-                message: None,
-                at_least_one_matches: false,
-            },
-        }),
-    )?;
-    Ok(status)
-}
-// ---- canary canary:pre:eval_type_block_clause
-pub fn eval_type_block_clause__canary<'value, 'loc: 'value>(
-    type_block: &'value TypeBlock<'loc>,
-    resolver: &mut dyn EvalContext<'value, 'loc>,
-) -> (res: Result<Status>)
-{ assert(false); vstd::pervasive::unreached() }
-// ---- fn guard/src/rules/eval.rs::eval_type_block_clause (assumed elsewhere as clause_stub.spec)
-pub fn eval_type_block_clause__as_assumed_0<'value, 'loc: 'value>(
-    type_block: &'value TypeBlock<'loc>,
-    resolver: &mut dyn EvalContext<'value, 'loc>,
-) -> (res: Result<Status>)
-    ensures
-        ((forall|n: Seq<char>| (final(resolver)).rule_sem(n) == (old(resolver)).rule_sem(n)) && (forall|q: Seq<QueryPart<'loc>>| (final(resolver)).query_sem(q) == (old(resolver)).query_sem(q))),
-        clause_post(old(resolver).stack(), final(resolver).stack(), res),
-{ let r = eval_type_block_clause(type_block, resolver); r }
+{ let r = eval_conjunction_clauses(conjunctions, resolver, eval_fn); r }
 } // verus!
 fn main() {}
